@@ -172,6 +172,29 @@ fn history(rep: &mut Report, orc: &mut Oracle, rng: &mut Rng, scratch: &str, hid
     cmds.push(Cmd::App(id, dep, m, w));
     used.push(id);
   }
+  // ---- a make that cannot apply: the same identifier twice in the list (with the same or with opposite signs,
+  //      i.e. valid + deprecated) must be refused and must not create the file
+  if rng.chance(1, 2) {
+    let (m1, w1) = gen_space_moc(rng);
+    let (m2, w2) = gen_space_moc(rng);
+    let (p1, p2) = (dir.join("dup_a.fits"), dir.join("dup_b.fits"));
+    write_moc_fits(&p1, &m1, w1);
+    write_moc_fits(&p2, &m2, w2);
+    let id = *rng.pick(&[7i64, 1, 42, 281474976710655]);
+    let (s1, s2) = *rng.pick(&[(1i64, 1i64), (1, -1), (-1, 1), (-1, -1)]);
+    let dup_list = format!("{} {}\n3 {}\n{} {}\n", s1 * id, p1.to_str().unwrap(), p1.to_str().unwrap(), s2 * id, p2.to_str().unwrap());
+    let dup_list_file = dir.join("dup_list.txt");
+    std::fs::write(&dup_list_file, &dup_list).unwrap();
+    let dup_set = dir.join("dup_set.bin");
+    let _ = std::fs::remove_file(&dup_set);
+    let r = run_cmd(&mocset, &["make", "-l", dup_list_file.to_str().unwrap(), "-n", "1", dup_set.to_str().unwrap()], None);
+    rep.evaluations += 1;
+    rep.count("make:duplicate-identifier");
+    if r.code == Some(0) || dup_set.exists() {
+      rep.violation("mocset make accepts a list naming the same identifier twice (or leaves a file behind)", &format!("MSET make-dup signs=({},{}) id={} list={:?}", s1, s2, id, dup_list), &format!("exit {:?} file_exists={} {}", r.code, dup_set.exists(), r.stderr.chars().take(200).collect::<String>()), "non-zero exit, no file", "C14 (commands that cannot apply: duplicate identifier)");
+    }
+    let _ = std::fs::remove_file(&dup_set);
+  }
   let list_file = dir.join("list.txt");
   std::fs::write(&list_file, &init_lines).unwrap();
   let r = run_cmd(&mocset, &["make", "-l", list_file.to_str().unwrap(), "-n", "1", &files], None);
